@@ -5,7 +5,7 @@
    (truncate_front of everything pending), the writer wake-up and calc_pipe. *)
 From Utp Require Import Base.Prelude Wire.SeqNr Wire.Header Rtt.Rtte Mtu.SegSizes Rx.Rx Tx.Ring
   Tx.Segments Tx.Segments_Proofs Conn.Recovery Conn.Msg Conn.VSockRec Conn.VSock Conn.VSockRun Conn.VSock_Inv
-  Conn.VSock_LemmasTx Conn.VSock_LemmasIn Rx.Rx_Slots Pair.DP Pair.DP_Lemmas Pair.Pair_Refine Pair.Pair_RefineWalk
+  Conn.VSock_LemmasTx Conn.VSock_LemmasIn Conn.C17_StepLemmas Rx.Rx_Slots Pair.DP Pair.DP_Lemmas Pair.Pair_Refine Pair.Pair_RefineWalk
   Pair.Pair_RefineWalkTx.
 
 Arguments SOk {CC A}. Arguments SErr {CC A}. Arguments SPanic {CC A}.
@@ -269,6 +269,160 @@ Proof.
     + cbn [stp]. apply Hfin. apply devs_refl.
     + cbn [stp]. apply Hfin. apply devs_refl.
     + cbn [stp]. apply Hfin. apply devs_refl.
+Qed.
+
+(* ------------------------------------------------------------------ the receive loop *)
+(* the accumulated result and the bytes pending *)
+Definition pacc_ok (p : Z) (acc : on_ack_result) : Prop :=
+  p = ar_acked_bytes acc /\ 0 <= ar_acked_segments acc /\ (ar_acked_segments acc = 0 -> ar_acked_bytes acc = 0).
+
+Lemma devs_set_inbox ib err p (s : vsock) m rest p' s' :
+  v_inbox s = m :: rest -> devs ib err p (set_inbox s rest) p' s' -> devs ib err p s p' s'.
+Proof.
+  intros Hib (evs & A1 & A2 & (pre & A3) & A4 & A5 & A6 & A7). exists evs.
+  split; [exact A1|]. split; [exact A2|].
+  split; [exists (m :: pre); rewrite Hib; vsimpl; rewrite A3; reflexivity|].
+  split; [exact A4|]. split; [exact A5|]. split; [exact A6|exact A7].
+Qed.
+
+Lemma devs_inbox_incl ib err p (s : vsock) p' s' :
+  devs ib err p s p' s' -> incl (v_inbox s) ib -> incl (v_inbox s') ib.
+Proof.
+  intros (evs & _ & _ & (pre & A3) & _) Hi x Hx. apply Hi. rewrite A3. apply in_or_app. right. exact Hx.
+Qed.
+
+Lemma transition_sv (s : vsock) :
+  same_view s (transition_to_fin_wait_1 s) /\ rfin (transition_to_fin_wait_1 s) = rfin s.
+Proof.
+  unfold transition_to_fin_wait_1, rfin, same_view.
+  destruct (v_state s) eqn:Es; vsimpl; rewrite ?Es; repeat split.
+Qed.
+
+Lemma recv_loop_ev ib : forall fuel (s : vsock) acc p,
+  pacc_ok p acc -> incl (v_inbox s) ib ->
+  stp (recv_loop cci fuel s acc)
+      (fun s' res => exists p', devs ib false p s p' s' /\ pacc_ok p' (fst res))
+      (fun s' => exists p', devs ib false p s p' s').
+Proof.
+  induction fuel as [|m0 fuel IH]; intros s acc p Hacc Hib.
+  - cbn [recv_loop]. destruct (v_inbox s) as [|m rest] eqn:Eib; [|exact I].
+    destruct (v_inbox_closed s).
+    + destruct (transition_sv s) as [T1 T2].
+      eapply stp_bind'; [apply maybe_send_fin_svs| |].
+      * intros s2 [H2 H2']. exists p. eapply devs_trans; [apply devs_same; [exact T1|rewrite T2; auto]|].
+        apply devs_same_state; assumption.
+      * intros s2 b [H2 H2']. cbn [stp fst]. exists p. split; [|exact Hacc].
+        eapply devs_trans; [apply devs_same; [exact T1|rewrite T2; auto]|].
+        eapply devs_trans; [apply devs_same_state; [exact H2|exact H2']|].
+        apply devs_same; [unfold same_view; vsimpl; repeat split|unfold rfin; vsimpl; reflexivity].
+    + cbn [stp fst]. exists p. split; [|exact Hacc].
+      apply devs_same_state; [unfold same_view; vsimpl; repeat split|vsimpl; reflexivity].
+  - cbn [recv_loop]. destruct (v_inbox s) as [|m rest] eqn:Eib.
+    + destruct (v_inbox_closed s).
+      * destruct (transition_sv s) as [T1 T2].
+        eapply stp_bind'; [apply maybe_send_fin_svs| |].
+        -- intros s2 [H2 H2']. exists p. eapply devs_trans; [apply devs_same; [exact T1|rewrite T2; auto]|].
+           apply devs_same_state; assumption.
+        -- intros s2 b [H2 H2']. cbn [stp fst]. exists p. split; [|exact Hacc].
+           eapply devs_trans; [apply devs_same; [exact T1|rewrite T2; auto]|].
+           eapply devs_trans; [apply devs_same_state; [exact H2|exact H2']|].
+           apply devs_same; [unfold same_view; vsimpl; repeat split|unfold rfin; vsimpl; reflexivity].
+      * cbn [stp fst]. exists p. split; [|exact Hacc].
+        apply devs_same_state; [unfold same_view; vsimpl; repeat split|vsimpl; reflexivity].
+    + assert (Hm : incl [m] ib).
+      { intros x [<-|[]]. apply Hib. left. reflexivity. }
+      eapply stp_bind'; [apply (pim_ev (set_inbox s rest) m p)| |].
+      * intros s1 (p' & H1). exists p'. eapply devs_set_inbox; [exact Eib|]. eapply devs_ib_mono; [exact Hm|exact H1].
+      * intros s1 r (H1 & Hc1 & Hc2).
+        assert (H1' : devs ib false p s (p + ar_acked_bytes r) s1).
+        { eapply devs_set_inbox; [exact Eib|]. eapply devs_ib_mono; [exact Hm|exact H1]. }
+        assert (Hacc1 : pacc_ok (p + ar_acked_bytes r) (result_update acc r)).
+        { destruct Hacc as (A1 & A2 & A3). unfold pacc_ok, result_update; cbn [ar_acked_bytes ar_acked_segments].
+          split; [lia|]. split; [lia|]. intro H0. rewrite A3, Hc2 by lia. reflexivity. }
+        destruct (_ || _).
+        -- cbn [stp fst]. exists (p + ar_acked_bytes r). split; assumption.
+        -- eapply stp_weaken; [apply (IH s1 (result_update acc r) _ Hacc1)| |].
+           ++ eapply devs_inbox_incl; [exact H1'|rewrite Eib; exact Hib].
+           ++ intros s' res (p' & H & Ha). exists p'. split; [eapply devs_trans; eauto|exact Ha].
+           ++ intros s' (p' & H). exists p'. eapply devs_trans; eauto.
+Qed.
+
+(* ------------------------------------------------------------------ the bookkeeping after the loop *)
+Lemma pa_tail_ev ib (s1 : vsock) r early p :
+  pacc_ok p r ->
+  stp (pa_tail s1 (r, early)) (fun s' _ => devs ib false p s1 0 s') (fun s' => devs ib false p s1 0 s').
+Proof.
+  intros (Hp & Hs0 & Hs1). unfold pa_tail. cbv beta iota zeta.
+  match goal with |- context [acked_counts_as_sent ?x] =>
+    assert (F2 : svs s1 x); [|abs_as x F2 s2] end.
+  { destruct (_ || _); [|apply svs_refl].
+    destruct (ss_segs _); [destruct (our_fin_if_unacked _)|];
+      unfold restart_remote_inactivity_timer, svs, same_view; vsimpl; repeat split. }
+  assert (K : forall s3 : vsock, devs ib false p s1 0 s3 ->
+     stp (match rv_phase (v_recovery s3) with
+          | Recovering rc =>
+              match calc_pipe (v_segs s3) (rc_high_rxt rc) (v_last_sent_seq_nr s3)
+                              (roundtrip_time (v_rtte s3)) (v_now s3) with
+              | None => SPanic
+              | Some (segs', pipe, recalc) =>
+                  SOk (set_recovering (VSockRec.set_segs s3 segs')
+                         {| rc_recovery_point := rc_recovery_point rc; rc_high_rxt := rc_high_rxt rc;
+                            rc_total_retx := rc_total_retx rc; rc_pipe := pipe; rc_recalc := recalc;
+                            rc_cwnd := rc_cwnd rc |}) tt
+              end
+          | _ => SOk s3 tt
+          end) (fun s' (_ : unit) => devs ib false p s1 0 s') (fun s' => devs ib false p s1 0 s')).
+  { intros s3 F3. destruct (rv_phase _) as [rp|d|rc]; try (cbn [stp]; exact F3).
+    destruct (calc_pipe _ _ _ _ _) as [[[segs' pipe] recalc]|] eqn:Ecp; [|exact I].
+    cbn [stp]. eapply devs_trans; [exact F3|].
+    apply (devs_plain ib false [EvPipe (rc_high_rxt rc) (v_last_sent_seq_nr s3) (roundtrip_time (v_rtte s3)) (v_now s3)]).
+    - cbn [drun]. unfold dview_of, set_recovering; vsimpl. cbn [dapply x_segs]. rewrite Ecp. reflexivity.
+    - repeat constructor.
+    - unfold set_recovering; vsimpl. reflexivity.
+    - unfold rfin, set_recovering; vsimpl. auto.
+    - unfold set_recovering; vsimpl. auto. }
+  destruct (Z.ltb_spec 0 (ar_acked_segments r)) as [Hpos|Hzero].
+  - assert (Ha : svs s1 (acked_counts_as_sent s2)).
+    { eapply svs_trans; [exact F2|]. unfold acked_counts_as_sent.
+      destruct (seq_gt _ _ && seq_lt _ _); [unfold svs, same_view; vsimpl; repeat split|apply svs_refl]. }
+    revert Ha. generalize (acked_counts_as_sent s2). intros s2' Ha.
+    destruct (truncate_front (v_tx s2') (ar_acked_bytes r)) as [tx1 tr] eqn:Et.
+    assert (Ht : devs ib false p s1 0 (set_tx s2' tx1)).
+    { eapply devs_trans; [apply devs_svs; exact Ha|].
+      apply (devs_plain ib false [EvTrunc]).
+      - cbn [drun]. unfold dview_of; vsimpl. cbn [dapply x_segs x_tx x_rx x_lc x_out x_pend].
+        unfold tx_skip. rewrite Hp, Et. reflexivity.
+      - repeat constructor.
+      - vsimpl. reflexivity.
+      - unfold rfin; vsimpl. auto.
+      - vsimpl. auto. }
+    destruct tr; cbn [sbind]; [|cbn [stp]; exact Ht].
+    destruct (wake_writer tx1) as [tx2 w] eqn:Ew. apply K.
+    eapply devs_trans; [exact Ht|].
+    apply (devs_plain ib false [EvTxFlag ToWakeWriter]).
+    + cbn [drun]. unfold dview_of, add_wakes; vsimpl. cbn [dapply x_tx is_flag_tx_op tx_step]. rewrite Ew. reflexivity.
+    + repeat constructor.
+    + unfold add_wakes; vsimpl. reflexivity.
+    + unfold rfin, add_wakes; vsimpl. auto.
+    + unfold add_wakes; vsimpl. auto.
+  - cbn [sbind]. apply K.
+    assert (Hp0 : p = 0) by (rewrite Hp; apply Hs1; lia). rewrite Hp0. apply devs_svs. exact F2.
+Qed.
+
+Lemma process_all_ev (s : vsock) :
+  stp (process_all_incoming_messages cci s)
+      (fun s' _ => devs (v_inbox s) false 0 s 0 s')
+      (fun s' => exists p', devs (v_inbox s) false 0 s p' s').
+Proof.
+  rewrite process_all_eq.
+  eapply stp_bind.
+  { apply (recv_loop_ev (v_inbox s) _ s on_ack_result_default 0).
+    - unfold pacc_ok. cbn. lia.
+    - apply incl_refl. }
+  intros s1 [r early] (p' & H1 & Hacc). cbn [fst] in Hacc.
+  eapply stp_weaken; [apply (pa_tail_ev (v_inbox s) s1 r early p' Hacc)| |].
+  - intros s' u H. eapply devs_trans; eauto.
+  - intros s' H. exists 0. eapply devs_trans; eauto.
 Qed.
 
 End WalkIn.
